@@ -127,6 +127,14 @@ def roundtrip_case(ctx, seed, real_file=False, charset='latin1'):
         ctx.check('one end_of_track, last', n_eot == 1 and got and got[-1].type == 'end_of_track',
                   'end_of_track', case, lambda: {'track': ti, 'n': n_eot})
         ctx.check('result is a MidiTrack', isinstance(back.tracks[ti], MidiTrack), 'track-class', case, None)
+    # the written bytes are conformant: reading them with clip=True changes nothing
+    try:
+        clipped = load_bytes(b, charset=charset, clip=True)
+        ok = len(clipped.tracks) == len(back.tracks) and all(same_msgs(list(x), list(y))
+                                                              for x, y in zip(clipped.tracks, back.tracks))
+        ctx.check('tracks == fold_eot(original)', ok, 'clip-true-differs-on-own-output', case, None)
+    except Exception as exc:
+        ctx.fail('tracks == fold_eot(original)', f'clip-load:{type(exc).__name__}', case, f'{type(exc).__name__}: {exc}')
     # saving must not have modified the in-memory file
     for ti, evs in enumerate(tracks):
         orig = [genfile.msg_of_event(e, charset) for e in evs]
@@ -376,6 +384,11 @@ def run(ctx):
             loaded += 1
         n += 1
     ctx.extra('mutated_files', nf)
+    if ctx.shard == 0:
+        from .. import customspec
+        customspec.scenario(ctx, 'tracks == fold_eot(original)', 'tracks == fold_eot(original)',
+                            'tracks == fold_eot(original)')
+        n += 1
     ctx.extra('mutated_files_that_loaded', loaded)
     ctx.count('cases', n)
 
